@@ -21,6 +21,7 @@ SYM = MODE == 'sym'
 COUNT = {'reach': 0, 'rejected': 0, 'failed': 0, 'runs': 0, 'max_ticks': 0}
 LAST = {'exc': None, 'ok': None, 'note': None}
 _REJECT = [False]
+SUSPECT = [False]
 UTC = datetime.timezone.utc
 EPOCH = datetime.datetime(1970, 1, 1, tzinfo=UTC)
 
@@ -158,6 +159,13 @@ def concrete_len(x):
 
 
 # ----------------------------------------------------------------------------- bookkeeping
+def suspicion():
+    """the symbolic run saw something that MAY be a violation (e.g. a write to module state); the
+    concrete replay decides whether it is observable.  A replay that passes is then reported as a note,
+    not as a harness error."""
+    SUSPECT[0] = True
+
+
 def rejected(note=None):
     """the input was refused by the library in a way the property allows; counts separately"""
     _REJECT[0] = True
@@ -249,7 +257,8 @@ def _report(args, exc, zone=None):
                 except Exception:
                     pass
             with open(path, 'w') as f:
-                json.dump({'args': real, 'observed': note, 'fuel_tripped': Fuel.tripped, **extra}, f)
+                json.dump({'args': real, 'observed': note, 'fuel_tripped': Fuel.tripped,
+                           'suspect': SUSPECT[0], **extra}, f)
 
 
 def run(body, args):
@@ -257,6 +266,7 @@ def run(body, args):
     the body is a failure (bodies catch what the property allows).  Returns a concrete bool."""
     COUNT['runs'] += 1
     _REJECT[0] = False
+    SUSPECT[0] = False
     Fuel.reset()
     exc = None
     try:
